@@ -190,6 +190,9 @@ pub fn scenarios(prop: &str, tier: Tier) -> Vec<Box<dyn Scenario>> {
                 c("withold_refid_map3", vec![Var, Var, MapWithOld(0), RefId(1), Map3(3, 2, 0)], vec![4], vec![1, 3], vec![], l),
                 c("mapref_over_withold", vec![Var, MapWithOld(0), RefId(1), Map(2)], vec![3], vec![2], vec![], l),
             ]
+            .into_iter()
+            .chain(graph_templates("C06g", if q { 6 } else { 8 }, ops_basic(), Monitors { c06g: true, ..Monitors::default() }))
+            .collect()
         }
         "C08" => {
             use Spec::*;
@@ -352,7 +355,7 @@ pub fn meta(prop: &str, tier: Tier) -> PropMeta {
                 e.push("incremental::Incr::{set_cutoff, set_cutoff_fn_boxed}, Cutoff::{Always, Never, PartialEq, Fn, FnBoxed}, ErasedCutoff::should_cutoff, MapRef child_changed");
                 e
             },
-            bounds: format!("5 templates (chain, diamond, fold with duplicate input, map_ref over a pair var, map_with_old/identity map_ref/map3) kept necessary by a permanent observer; the cutoff kind of 2-3 designated nodes (vars included) is a symbolic choice among {{default, Never, Always, fn, boxed closure}} (fn/boxed answer with an uninterpreted predicate q_k(old,new) and log their arguments); every history of {} actions from {{write fresh value, write the same value again, extra observer, drop it, stabilise}}; reference = per-node 'last result' model run next to the engine", l(5, 7)),
+            bounds: format!("5 templates (chain, diamond, fold with duplicate input, map_ref over a pair var, map_with_old/identity map_ref/map3) kept necessary by a permanent observer; the cutoff kind of 2-3 designated nodes (vars included) is a symbolic choice among {{default, Never, Always, fn, boxed closure}} (fn/boxed answer with an uninterpreted predicate q_k(old,new) and log their arguments); every history of {} actions from {{write fresh value, write the same value again, extra observer, drop it, stabilise}}; reference = per-node 'last result' model run next to the engine. PLUS the 9 graph templates of C01 with default cutoffs, histories of {} actions incl. observe/drop/disallow (nodes become unnecessary and necessary again): a function that has run before may run again only if an input produced an unsuppressed result since (inputs' results tracked from the invocation log; variable recomputations observed through logging ==-cutoffs)", l(5, 7), l(6, 8)),
             outside: {
                 let mut o = common_outside;
                 o.push("cutoffs on bind and depend_on nodes; expert nodes; periods in which a node is unnecessary (covered for values by C01)");
@@ -360,7 +363,7 @@ pub fn meta(prop: &str, tier: Tier) -> PropMeta {
             },
             assumptions: common_assume,
             rule: "as C01",
-            must_cover: vec!["cutoff-suppressed", "cutoff-did-not-suppress", "always-cutoff-after-first-result", "write-same-value-again"],
+            must_cover: vec!["cutoff-suppressed", "cutoff-did-not-suppress", "always-cutoff-after-first-result", "write-same-value-again", "function-ran-again"],
         },
         "C08" => PropMeta {
             level: "other",
